@@ -48,8 +48,8 @@ theorem opCopy_eq (o : Opts) (r : Root) (acc : Int) (op : Op) :
       match op.frm with
       | none => .err .missing
       | some frm =>
-        match afterW r (copySource o r frm) with
-        | none => failOf (copySource o r frm)
+        match afterW r (copyFirst o r frm) with
+        | none => failOf (copyFirst o r frm)
         | some r1 =>
           match afterW r1 (destWalk o r1 op.path) with
           | none => failOf (destWalk o r1 op.path)
@@ -82,7 +82,7 @@ theorem copySizeOf_eq (o : Opts) (r : Root) (op : Op) :
       match op.frm with
       | none => 0
       | some frm =>
-        match afterW r (copySource o r frm) with
+        match afterW r (copyFirst o r frm) with
         | some r1 =>
           match afterW r1 (destWalk o r1 op.path) with
           | some r2 => (deepCopy o.esc (srcVal o r2 frm)).2
@@ -105,12 +105,12 @@ theorem srcVal_of_copySrc {o r2 frm val} (h : copySrc o r2 frm = .ok val) : srcV
 /-- source and destination of a copy resolve: both walks of `opCopy` find their container
 and the source can be read again (the second walk may have parsed inside it) -/
 def CopyResolves (o : Opts) (r : Root) (op : Op) : Prop :=
-  ∃ frm r1 r2 val, op.frm = some frm ∧ afterW r (copySource o r frm) = some r1 ∧
+  ∃ frm r1 r2 val, op.frm = some frm ∧ afterW r (copyFirst o r frm) = some r1 ∧
     afterW r1 (destWalk o r1 op.path) = some r2 ∧ copySrc o r2 frm = .ok val ∧
     ¬ (frm = [] ∧ isDocNil r2.con = true)
 
 theorem copySizeOf_of_resolves {o r op frm r1 r2 val} (h0 : op.frm = some frm)
-    (h1 : afterW r (copySource o r frm) = some r1)
+    (h1 : afterW r (copyFirst o r frm) = some r1)
     (h2 : afterW r1 (destWalk o r1 op.path) = some r2) (h3 : copySrc o r2 frm = .ok val) :
     copySizeOf o r op = (deepCopy o.esc val).2 := by
   rw [copySizeOf_eq, h0]
@@ -126,6 +126,14 @@ theorem copySource_fail_not_special {o r frm e} (h : copySource o r frm = .fail 
   · contradiction
   · rename_i h1; cases h; exact conGet_not_special h1
   · contradiction
+
+theorem copyFirst_fail_not_special {o r frm e} (h : copyFirst o r frm = .fail e) : ¬ Special e := by
+  unfold copyFirst at h
+  split at h
+  · split at h
+    · cases h; simp [Special]
+    · contradiction
+  · exact copySource_fail_not_special h
 
 theorem destWalk_fail_not_special {o r path e} (h : destWalk o r path = .fail e) : ¬ Special e := by
   refine withPath_fail o _ _ _ (fun e => ¬ Special e) ?_ h
@@ -152,7 +160,7 @@ theorem failOf_not_special {α} {w : Walk α} {e : Err} (hw : ∀ e, w = .fail e
 /-- the errors of a copy: the copy-size error arises only from the limit check -/
 theorem opCopy_err_special {o r acc op e} (h : opCopy o r acc op = .err e) (hs : Special e) :
     e = .copySize ∧ o.limit > 0 ∧ ∃ frm r1 r2 val, op.frm = some frm ∧
-      afterW r (copySource o r frm) = some r1 ∧
+      afterW r (copyFirst o r frm) = some r1 ∧
       afterW r1 (destWalk o r1 op.path) = some r2 ∧ copySrc o r2 frm = .ok val ∧
       ¬ (frm = [] ∧ isDocNil r2.con = true) ∧ acc + ((deepCopy o.esc val).2 : Int) > o.limit := by
   rw [opCopy_eq] at h
@@ -160,7 +168,7 @@ theorem opCopy_err_special {o r acc op e} (h : opCopy o r acc op = .err e) (hs :
   · cases h; simp [Special] at hs
   · rename_i frm hfrm
     split at h
-    · exact absurd hs (failOf_not_special (fun e h => copySource_fail_not_special h) h)
+    · exact absurd hs (failOf_not_special (fun e h => copyFirst_fail_not_special h) h)
     · rename_i r1 h1
       split at h
       · exact absurd hs (failOf_not_special (fun e h => destWalk_fail_not_special h) h)
@@ -191,7 +199,7 @@ theorem opCopy_ok_acc {o r acc op r' acc'} (h : opCopy o r acc op = .ok (r', acc
   · contradiction
   · rename_i frm hfrm
     split at h
-    · rename_i hn; cases hw : copySource o r frm <;> simp [hw, failOf] at h
+    · rename_i hn; cases hw : copyFirst o r frm <;> simp [hw, failOf] at h
     · rename_i r1 h1
       split at h
       · cases hw : destWalk o r1 op.path <;> simp [hw, failOf] at h
